@@ -94,8 +94,8 @@ func spec_userAction(r int, dollarDolar *StateSym, Dollar []StateSym)
 //@ func ParserInit
 //@ props C15 C08 C07 C01 C02 C06 C17
 //@ requires len(StateSymStack) == 0 || (StateSymStack[0].Yystate == 0 && StateSymStack[0].YySymIndex == 1 && StateSymStack[0].ValType == ValType{})
-//@ ensures [C15,C08] StackPointer == 1 && len(StateSymStack) >= 1
-//@ ensures [C15,C08] StateSymStack[0].Yystate == 0 && StateSymStack[0].YySymIndex == 1 && StateSymStack[0].ValType == ValType{}
+//@ ensures [C15,C08,C01,C06,C07] StackPointer == 1 && len(StateSymStack) >= 1
+//@ ensures [C15,C08,C01,C06,C07] StateSymStack[0].Yystate == 0 && StateSymStack[0].YySymIndex == 1 && StateSymStack[0].ValType == ValType{}
 // global mode: a new parse gets a NEW stack array, so values handed out by an earlier parse (Parser returns a pointer into
 // the stack) and a stack saved by PushContex are never overwritten by a later parse (C07, C15)
 //@ ensures [C07,C08,C15,C01,C02,C06,C17] freshStackAfterInit()
@@ -224,11 +224,11 @@ func spec_userAction(r int, dollarDolar *StateSym, Dollar []StateSym)
 // C15: a context from MakeParserContext() is a NEW object in the initial configuration (one entry: state 0, end marker, zero
 // value) - nothing of it is shared with any other context
 //@ func MakeParserContext
-//@ props C15 C08
+//@ props C15 C08 C01 C06 C07
 //@ results ctx
-//@ ensures [C15,C08] ctx != nil && fresh(ctx) && ctx.Stackpos == 1 && len(ctx.StackSym) >= 1
-//@ ensures [C15,C08] ctx.StackSym[0].Yystate == 0 && ctx.StackSym[0].YySymIndex == 1 && ctx.StackSym[0].ValType == ValType{}
-//@ ensures [C15,C08] forall o *Context :: old(allocated(o)) ==> o.Stackpos == old(o.Stackpos) && o.StackSym == old(o.StackSym)
+//@ ensures [C15,C08,C01,C06,C07] ctx != nil && fresh(ctx) && ctx.Stackpos == 1 && len(ctx.StackSym) >= 1
+//@ ensures [C15,C08,C01,C06,C07] ctx.StackSym[0].Yystate == 0 && ctx.StackSym[0].YySymIndex == 1 && ctx.StackSym[0].ValType == ValType{}
+//@ ensures [C15,C08,C01,C06,C07] forall o *Context :: old(allocated(o)) ==> o.Stackpos == old(o.Stackpos) && o.StackSym == old(o.StackSym)
 //@ modifies nothing
 //@ allocates Context
 //@ allocates arrays
